@@ -53,6 +53,9 @@ type op struct {
 	Model  *mdl   `json:"model,omitempty"`
 	Filter *fcfg  `json:"filter,omitempty"`
 	Fail   bool   `json:"fail,omitempty"`
+	// Cancel: the listing is fetched, but the discovery round's context is cancelled before the registry is reached
+	// (what a sibling endpoint's failure does to the round's errgroup): a failed update, like Fail
+	Cancel bool `json:"cancel,omitempty"`
 	I      int    `json:"i,omitempty"`
 	URL    string `json:"url,omitempty"`
 }
@@ -267,13 +270,18 @@ func (w *world) apply(o op, forced bool) (ok bool) {
 		ep := *w.eps[o.E]
 		ep.ModelFilter = toFilter(o.Filter)
 		ms := mis(o.Models)
+		dctx, cancel := context.WithCancel(ctx)
+		defer cancel()
 		w.cl.set(ep.URLString, func() ([]*domain.ModelInfo, error) {
 			if o.Fail {
 				return nil, errors.New("scripted discovery failure")
 			}
+			if o.Cancel {
+				cancel()
+			}
 			return ms, nil
 		})
-		return w.svc.DiscoverEndpoint(ctx, &ep) == nil
+		return w.svc.DiscoverEndpoint(dctx, &ep) == nil
 	case "reg":
 		if forced {
 			err := w.reg.MemoryModelRegistry.RegisterModels(ctx, epURL(o.E), mis(o.Models))
@@ -452,6 +460,7 @@ type gen struct {
 	n    int
 	cur  [][]mdl // shadow of the last accepted listing per endpoint (nil = none)
 	pend int     // forced mode: number of pending unifications
+	again *op    // a discovery to repeat as the next op (the listing of a cancelled round arriving again)
 }
 
 func (g *gen) pickModels(k int) []*mdl {
@@ -490,6 +499,22 @@ func (g *gen) accept(e int, ms []*mdl) {
 func (g *gen) next(forced bool, withDisc bool) op {
 	r := g.r
 	e := r.Intn(g.n)
+	if g.again != nil {
+		o := *g.again
+		g.again = nil
+		if r.Chance(3, 4) {
+			ok := true
+			for _, m := range o.Models {
+				if m == nil || strings.TrimSpace(m.Name) == "" {
+					ok = false
+				}
+			}
+			if ok {
+				g.accept(o.E, o.Models)
+			}
+			return o
+		}
+	}
 	if forced && g.pend > 0 && r.Chance(2, 5) {
 		i := r.Intn(g.pend)
 		g.pend--
@@ -604,6 +629,12 @@ func (g *gen) next(forced bool, withDisc bool) op {
 		if forced {
 			return mkReg(e, g.pickModels(1))
 		}
+		if r.Bool() {
+			// the round is cancelled after the fetch; often the same listing arrives again in the next, clean round
+			ms := g.pickModels(1 + r.Intn(2))
+			g.again = &op{Op: "disc", E: e, Models: ms}
+			return op{Op: "disc", E: e, Cancel: true, Models: ms}
+		}
 		return op{Op: "disc", E: e, Fail: true, Models: g.pickModels(1)}
 	case k < 95:
 		return op{Op: "badurl", URL: vlib.Pick(r, []string{"", "no-scheme", "http://", "://x"}), Models: g.pickModels(1)}
@@ -688,6 +719,9 @@ func main() {
 	caseHist(c, "seq", 2, []op{{Op: "disc", E: 0, Models: []*mdl{M("x"), M("y")}, Filter: &fcfg{Include: []string{"x*"}, Exclude: []string{"a**"}}},
 		{Op: "disc", E: 0, Models: []*mdl{M("z")}, Fail: true}, {Op: "badurl", URL: "no-scheme", Models: []*mdl{M("q")}},
 		{Op: "disc", E: 1, Models: []*mdl{M("X"), M("y")}, Filter: &fcfg{Include: []string{"*"}, Exclude: []string{"x"}}}})
+	// a listing change that arrives in a cancelled round, then again in clean rounds
+	caseHist(c, "seq", 2, []op{{Op: "disc", E: 0, Models: []*mdl{M("x")}}, {Op: "disc", E: 1, Models: []*mdl{M("x")}},
+		{Op: "disc", E: 1, Models: []*mdl{M("y")}, Cancel: true}, {Op: "disc", E: 1, Models: []*mdl{M("y")}}, {Op: "disc", E: 1, Models: []*mdl{M("y")}}})
 	c.Count("corpus")
 
 	// ---- random histories
